@@ -141,6 +141,7 @@ type walker struct {
 	leaves  []leaf
 	objs   map[*Obj]int
 	order  []*Obj
+	folds  []Fold
 }
 
 func (w *walker) walk(v Val, where string, at token.Pos) {
@@ -171,6 +172,7 @@ func (w *walker) walk(v Val, where string, at token.Pos) {
 			w.walk(x.Fields[f], x.TName+"."+f, x.At)
 		}
 	case Fold:
+		w.folds = append(w.folds, x)
 		w.walk(x.Acc, where+"(fold)", at)
 		w.walk(x.List, where+"(fold)", at)
 	case Global:
@@ -712,6 +714,24 @@ func (l *Lang) Order(shapes map[string]*Shape) *report.RuleResult {
 			if lv, ok := p.Result.(ListV); ok {
 				if msg := l.ascending(lv); msg != "" {
 					bad[pkey+"/$$/list"] = msg
+				}
+			}
+			// chains built by a loop over a list: a walk from the first element nests what came BEFORE the list
+			// innermost (each element wraps the chain so far, so the last element ends up outermost); a walk from the
+			// last element nests what comes AFTER the list innermost. The other combinations turn the source order
+			// of the elements inside out.
+			for _, fd := range w.folds {
+				ra, rl := l.rangeOf(fd.Acc), l.rangeOf(fd.List)
+				if ra.Empty || rl.Empty {
+					continue
+				}
+				res.Count("folds", 1)
+				fk := fmt.Sprintf("%s/fold:%s", pkey, Canon(fd.List))
+				switch {
+				case fd.Dir == "left" && !ra.Max.Less(rl.Min):
+					bad[fk] = fmt.Sprintf("the loop walks %s from its first element and wraps each element around the chain so far, but the chain starts from %s..%s, which does not precede the list in the source: the elements end up nested in reverse source order on path [%s]", fd.List, ra.Min, ra.Max, pathLabel(p))
+				case fd.Dir == "right" && !rl.Max.Less(ra.Min):
+					bad[fk] = fmt.Sprintf("the loop walks %s from its last element and wraps each element around the chain so far, but the chain starts from %s..%s, which does not follow the list in the source: the elements end up nested in reverse source order on path [%s]", fd.List, ra.Min, ra.Max, pathLabel(p))
 				}
 			}
 			// several updates of the same existing object: their fields among each other
